@@ -16,7 +16,7 @@ SHARDS = {"quick": 8, "thorough": 16}
 RULE = ("(the reply may arrive in several TCP segments; a sweep uses nonces for which the genuine reply contains the start marker 83 70, cut at every position) case = (token 64B, key 32B, each passed as bytes or hex string, device nonce, prior state fresh / previously "
         "authenticated with other good credentials / an earlier attempt timed out and its late replies arrived afterwards / the same credentials authenticated more than 12 h ago on this connection, reply mutation). Mutations: genuine; every single-bit flip of the 64-byte "
         "reply body (512, exhaustive); body length 0/32/63/65/96/128; 1..15 extra bytes with the header's pad nibble set to that count; every packet type nibble 0..15 in place of 1; error "
-        "packet; reply built under a different key (random or 1 bit different); hash of a different nonce; silence. Oracle: "
+        "packet; reply built under a different key (random or 1 bit different); hash of a different nonce; silence; only the first 0..71 bytes of the genuine reply followed by the unit's hang-up; any unacceptable reply optionally followed by the unit's hang-up (FIN or RST, seen by the client's loop after or in the same pass as the reply). Oracle: "
         "genuine => Device.authenticate returns, a following refresh() is decrypted by the model under the new session key and "
         "succeeds, Device.token/key == supplied (hex). Otherwise => AuthenticationError exactly, the model saw nothing but "
         "handshake requests carrying the supplied token during the call, Device.token/key unchanged, and (fresh prior) a "
@@ -128,8 +128,14 @@ def check_case(case: dict):
             pass        # (the call below asks for zero attempts: no request can go out, so no reply can prove anything)
         elif kind == "raw":
             dev.default_hs_action = ("raw", bytes.fromhex(mut[1]))
+        elif kind == "partial":
+            # only the first n bytes of the genuine reply arrive (the framer keeps waiting for the rest), then the unit hangs up
+            dev.default_hs_action = ("genuine", {"trunc": mut[1], "then": mut[2]})
         else:
             raise ValueError(kind)
+        if case.get("then") and kind not in ("genuine", "partial", "silence", "nobudget", "raw") and dev.default_hs_action[0] in ("genuine", "error"):
+            # the unit hangs up behind its (unacceptable) reply: FIN or RST, seen by the client's loop after or in the same pass as the reply
+            dev.default_hs_action = (dev.default_hs_action[0], dict(dev.default_hs_action[1], then=case["then"]))
 
         targ = token.hex() if case.get("token_form") == "hex" else token
         karg = key.hex() if case.get("key_form") == "hex" else key
@@ -291,11 +297,14 @@ def run(ctx) -> None:
         others = [p_ for p_ in ("fresh", "authed", "late", "expired") if p_ != base["prior"]]
         muts = [["flip", b] for b in range(512)] + [["len", k] for k in (0, 1, 32, 63, 65, 96, 128)] + \
                [["ptype", t] for t in range(16) if t != 1] + [["lenpad", k, k] for k in range(1, 16)] + [["lenpad", 0, 5], ["lenpad", 3, 7], ["lenpad", 16, 0]] + [["error"], ["wrongkey", "random"], ["othernonce"], ["silence"], ["genuine"], ["nobudget", 0], ["nobudget", -1]] + \
+               [["partial", k, how] for k in (0, 1, 5, 8, 40, 71) for how in ("fin", "rst", "fin_same", "rst_same")] + \
                [["wrongkey", b] for b in range(0, 256, 16 if ctx.quick else 1)]
         for m in muts:
             n += 1
             if ctx.mine(n):
                 case = dict(base, mut=m)
+                if n % 4 == 0:
+                    case["then"] = ["fin", "rst", "fin_same", "rst_same"][(n // 4) % 4]
                 ctx.check(case, lambda c: _run_one(ctx, c))
             if m[0] not in ("flip",) or m[1] % 32 == 0:
                 # also in the other prior state
@@ -311,11 +320,12 @@ def run(ctx) -> None:
                     st.tuples(st.just("lenpad"), st.integers(1, 40), st.integers(0, 15)).map(list), st.tuples(st.just("ptype"), st.sampled_from([0, 2, 3, 4, 5, 6, 7, 8, 9, 10, 11, 12, 13, 14, 15])).map(list),
                     st.just(["error"]), st.just(["wrongkey", "random"]), st.tuples(st.just("wrongkey"), st.integers(0, 255)).map(list),
                     st.just(["othernonce"]), st.just(["silence"]), st.just(["nobudget", 0]),
+                    st.tuples(st.just("partial"), st.integers(0, 71), st.sampled_from(["fin", "rst", "fin_same", "rst_same"])).map(list),
                     st.tuples(st.just("raw"), hexb(st.one_of(st.binary(max_size=90), st.binary(max_size=80).map(lambda b: b"\x83\x70" + bytes([0, len(b) - 2 if len(b) >= 2 else 0, 0x20]) + b)))).map(list))
     cases = st.fixed_dictionaries({
         "token": hexb(gens.tokens64()), "key": hexb(gens.keys32()), "nonce": hexb(st.binary(min_size=1, max_size=8)),
         "token_form": st.sampled_from(["bytes", "hex"]), "key_form": st.sampled_from(["bytes", "hex"]),
         "prior": st.sampled_from(["fresh", "fresh", "authed", "late", "expired"]), "mut": mut, "id": gens.device_ids(48)},
         optional={"cuts": st.lists(st.integers(1, 71), min_size=1, max_size=4, unique=True).map(sorted), "gap": st.sampled_from([0.0, 0.01, 0.5]),
-                  "lost_first": st.sampled_from([0, 0, 1, 2])})
+                  "lost_first": st.sampled_from([0, 0, 1, 2]), "then": st.sampled_from(["fin", "rst", "fin_same", "rst_same"])})
     ctx.hyp("generated", cases, lambda c: _run_one(ctx, c), ctx.n(2400, 128000))
